@@ -25,7 +25,6 @@ from gen import c06_gen as G
 ID = "C06"
 LEVEL = "model_checking"
 
-RST = None  # set in _table()
 TOL = 1e-9
 
 
@@ -62,6 +61,14 @@ class _Done(Exception):
     pass
 
 
+class TextRouteFailure(Exception):
+    """The compiled-text program died outside `new` (e.g. while building a specifier)."""
+
+    def __init__(self, index, exc):
+        super().__init__(index, exc)
+        self.index, self.exc = index, exc
+
+
 _JOB = None  # callable(ns) run by the prelude's last line
 _JOB_RESULT = None
 
@@ -84,10 +91,19 @@ def in_veneer(mode2D, job, extra_text=""):
         scenic.scenarioFromString(text, mode2D=mode2D)
     except _Done:
         pass
+    except HarnessError:
+        raise
+    except Exception as e:
+        cur = _TEXT.get("cur")
+        if extra_text and cur is not None:
+            raise TextRouteFailure(cur[0], e)
+        raise HarnessError(f"prelude does not compile (mode2D={mode2D}): {e!r}")
     else:
         raise HarnessError("prelude finished without reaching the hook")
     finally:
         _JOB = None
+        if Tracer.active is not None:
+            Tracer.active.stop()
     return _JOB_RESULT
 
 
@@ -223,12 +239,24 @@ class Obs:
         self.specs = None
 
 
+DUPLICATE = "duplicate-specifier"  # "Cannot use X specifier to modify itself": the same
+# specifier twice, i.e. a same-priority ambiguity or a double modification
+
+
+def kind_accepted(kind, errors):
+    if kind in errors:
+        return True
+    return kind == DUPLICATE and bool(errors & {M.AMBIGUOUS, M.MODIFIED_TWICE})
+
+
 def classify_exception(e):
     from scenic.core.errors import SpecifierError
 
     msg = str(e)
     if isinstance(e, SpecifierError):
-        if "specifier to modify itself" in msg or "specified twice with the same priority" in msg:
+        if "specifier to modify itself" in msg:
+            return DUPLICATE
+        if "specified twice with the same priority" in msg:
             return M.AMBIGUOUS
         if "cannot be directly specified" in msg:
             return M.FINAL
@@ -317,56 +345,56 @@ def observe(thunk):
 
 
 # -- the same through compiled Scenic text -------------------------------------------
-_TEXT = {"obs": {}, "cur": None, "specs": None}
+_TEXT = {"obs": {}, "cur": None}  # cur: (case index, `new` reached?)
 
 
 def _t_begin(ns):
-    """Route `new` of the compiled program through a recorder of the specifier list."""
+    """Route `new` of the compiled program through the tracer: the trace covers exactly the
+    creation of the object (its specifiers, already built from the syntax, are recorded).
+    A failing creation is recorded and yields None (a `try` statement per case would cost
+    20 ms in Scenic's parser)."""
     orig_new = ns["new"]
 
     def new(cls, specifiers):
-        _TEXT["specs"] = list(specifiers)
-        return orig_new(cls, specifiers)
+        cur = _TEXT["cur"]
+        if cur is None or cur[1]:
+            return orig_new(cls, specifiers)
+        _TEXT["cur"] = (cur[0], True)
+        tr = Tracer()
+        tr.start()
+        try:
+            obj = orig_new(cls, specifiers)
+        except Exception as e:
+            obs = tr.error(e)
+            obj = None
+        else:
+            obs = tr.ok(obj)
+        finally:
+            tr.stop()
+        obs.specs = list(specifiers)
+        _TEXT["obs"][cur[0]] = obs
+        return obj
 
     ns["new"] = new
     _TEXT["obs"] = {}
+    _TEXT["cur"] = None
 
 
 def _t_start(i):
-    tr = Tracer()
-    _TEXT["cur"] = (i, tr)
-    _TEXT["specs"] = None
-    tr.start()
+    _TEXT["cur"] = (i, False)
 
 
-def _t_ok(obj):
-    i, tr = _TEXT["cur"]
-    obs = tr.ok(obj)
-    obs.specs = _TEXT["specs"]
-    _TEXT["obs"][i] = obs
-
-
-def _t_err(e):
-    i, tr = _TEXT["cur"]
-    obs = tr.error(e)
-    obs.specs = _TEXT["specs"]
-    _TEXT["obs"][i] = obs
+def _t_end():
+    _TEXT["cur"] = None
 
 
 def text_program(cases):
     """cases: [(class name, permutation of instance keys)] -> Scenic source."""
     lines = ["c06mod._t_begin(globals())"]
     for i, (cls, perm) in enumerate(cases):
-        specs = ", ".join(G.INSTS[k].text for k in perm)
-        lines += [
-            f"c06mod._t_start({i})",
-            "try:",
-            f"    _o = new {cls} {specs}".rstrip(),
-            "except Exception as _e:",
-            "    c06mod._t_err(_e)",
-            "else:",
-            "    c06mod._t_ok(_o)",
-        ]
+        lines.append(f"c06mod._t_start({i})")
+        lines.append(text_of(cls, perm).rstrip())
+    lines.append("c06mod._t_end()")
     return "\n".join(lines) + "\n"
 
 
@@ -397,7 +425,7 @@ _CLASSINFO = {}
 
 def class_info(ns, clsname, mode2D):
     """(merged defaults of the model, documented finals, violations of the class plumbing)."""
-    key = (id(ns), clsname)
+    key = (clsname, mode2D)
     if key in _CLASSINFO:
         return _CLASSINFO[key]
     cls = ns[clsname]
@@ -421,6 +449,16 @@ def class_info(ns, clsname, mode2D):
     finals = set()
     for sc in cls.__mro__:
         finals |= M.documented_finals(sc.__dict__.get("__doc__") or "")
+    # the implementation's merged view must be the documented merge of the declarations
+    for prop in sorted(set(merged) | set(cls._defaults)):
+        m, d = merged.get(prop), cls._defaults.get(prop)
+        if m is None or d is None or set(d.requiredProperties) != set(m.deps) or (prop in cls._finalProperties) != m.final:
+            got = None if d is None else (sorted(d.requiredProperties), prop in cls._finalProperties)
+            want = None if m is None else (sorted(m.deps), m.final)
+            problems.append((f"class-merge:{clsname}:{prop}", f"class {clsname} (mode2D={mode2D}): default of {prop}: (dependencies, final) should be {want}, is {got}"))
+    for prop in sorted(finals):
+        if prop in merged and not merged[prop].final:
+            problems.append((f"class-final:{clsname}:{prop}", f"class {clsname}: {prop} is documented as final but not declared so"))
     info = (merged, frozenset(finals), problems, names)
     _CLASSINFO[key] = info
     return info
@@ -451,11 +489,16 @@ def judge(ns, clsname, mode2D, keys, specs, obs, sems, out, stats):
             return v
         if not out.errors:
             v.append((f"unexpected-error:{obs.kind}", f"expected success, got {obs.exc}"))
-        elif obs.kind not in out.errors:
+        elif not kind_accepted(obs.kind, out.errors) and out.errors == {M.FINAL} and out.final_only_by_modifying_form:
+            v.append(("missed-error:final:specified-by-modifying-specifier", f"expected error ['final'] ({out.detail}); resolution went on and failed later with {obs.exc}"))
+        elif not kind_accepted(obs.kind, out.errors):
             v.append((f"error-kind:{'+'.join(sorted(out.errors))}-vs-{obs.kind}", f"expected error {sorted(out.errors)} ({out.detail}), got {obs.exc}"))
         return v
     if out.errors:
-        v.append((f"missed-error:{'+'.join(sorted(out.errors))}", f"expected error {sorted(out.errors)} ({out.detail}), but the object was created"))
+        sig = f"missed-error:{'+'.join(sorted(out.errors))}"
+        if out.errors == {M.FINAL} and out.final_only_by_modifying_form:
+            sig += ":specified-by-modifying-specifier"
+        v.append((sig, f"expected error {sorted(out.errors)} ({out.detail}), but the object was created"))
         return v
 
     merged = class_info(ns, clsname, mode2D)[0]
@@ -463,7 +506,6 @@ def judge(ns, clsname, mode2D, keys, specs, obs, sems, out, stats):
     idmap = {id(s): i for i, s in enumerate(specs)}
     rewritten = [i for i, k in enumerate(keys) if k == "w_heading" and sems[i].form == M.T_FACING]
     ev_of = {}
-    order = []
     for pos, (spec, snap, ret) in enumerate(obs.events):
         if id(spec) in idmap:
             node = idmap[id(spec)]
@@ -477,7 +519,6 @@ def judge(ns, clsname, mode2D, keys, specs, obs, sems, out, stats):
         if node in ev_of:
             v.append(("evaluated-twice", f"{node_name(node, keys)} evaluated twice"))
         ev_of[node] = (pos, snap, ret)
-        order.append(node)
     hidden = lambda n: isinstance(n, tuple) and n[1].startswith("_")  # internal properties
     expected_nodes = {n for n in out.deps if not hidden(n)}
     if {n for n in ev_of if not hidden(n)} != expected_nodes:
@@ -499,7 +540,6 @@ def judge(ns, clsname, mode2D, keys, specs, obs, sems, out, stats):
         mnode = out.modifier.get(prop)
         supplier = mnode if mnode is not None else wnode
         pos, snap, ret = ev_of[supplier]
-        tag = "default" if w == M.DEFAULT else G.INSTS[keys[w]].desc.title.split(" ")[0]
         if prop not in ret:
             v.append((f"winner:{prop}", f"{prop}: expected from {node_name(supplier, keys)}, which supplied only {sorted(ret)}"))
             continue
@@ -540,8 +580,6 @@ def judge(ns, clsname, mode2D, keys, specs, obs, sems, out, stats):
                 v.append((f"order:{d}", f"{node_name(node, keys)} evaluated with {d} = {show(snap[d])}, but the final value is {show(final.get(d))}"))
 
     # --- defaults of user classes: value of the most derived class --------------------
-    from scenic.core.vectors import Vector
-
     for prop, w in out.winner.items():
         if w != M.DEFAULT or prop not in merged or prop not in final:
             continue
@@ -577,43 +615,79 @@ def outcomes_equal(a, b, mode2D):
     return True, ""
 
 
-def new_stats():
-    return dict(
-        resolutions=0,
-        props_judged=0,
-        indistinct=0,
-        winner_identified_by_value=0,
-        dep_edges=0,
-        default_values_judged=0,
-        ok=0,
-        multi_error=0,
-        projection_refused=0,
-        priority_conflict=0,
-        modifier=0,
-        kinds={},
-    )
-
-
 def build_specs(ns, keys):
     return [eval(G.INSTS[k].py, ns) for k in keys]
 
 
-def run_multiset(ns, clsname, mode2D, ms, stats, text_obs=None):
-    """-> list of (signature, message, perm).  One violation per signature."""
+# ---------------------------------------------------------------------------------
+# oracle (3): table conformance of a built specifier
+# ---------------------------------------------------------------------------------
+_CONFORMED = set()
+
+
+def conformance(ns, clsname, mode2D, route, keys, specs, sems, stats):
+    """spec.priorities / requiredProperties / modifiable_props == the documented row."""
+    from scenic.core.specifiers import ModifyingSpecifier
+
+    v = []
+    if specs is None:
+        return v
     cls = ns[clsname]
+    for k, spec, sem in zip(keys, specs, sems):
+        tagk = (route, mode2D, k, sem.form)
+        if tagk in _CONFORMED:
+            continue
+        _CONFORMED.add(tagk)
+        stats["table_tags"].append(tagk)
+        spec = cls._prepareSpecifiers([spec])[0]  # 2D mode: `with heading` -> `facing`
+        got = {p: pri for p, pri in spec.priorities.items() if not p.startswith("_")}
+        want = sem.prio
+        for prop in sorted(set(got) | set(want)):
+            if got.get(prop) != want.get(prop):
+                v.append((f"table:{k}:{prop}", f"[{route}] `{G.INSTS[k].text}` (row \"{sem.form}\", mode2D={mode2D}): documented priority of {prop} is {want.get(prop)}, the specifier has {got.get(prop)}"))
+        gd, wd = set(spec.requiredProperties), set(sem.deps)
+        for prop in sorted(gd ^ wd):
+            v.append((f"table-deps:{k}:{prop}", f"[{route}] `{G.INSTS[k].text}` (row \"{sem.form}\", mode2D={mode2D}): documented dependencies {sorted(wd)}, the specifier has {sorted(gd)}"))
+        gm = set(spec.modifiable_props) if isinstance(spec, ModifyingSpecifier) else set()
+        if gm != set(sem.modifiable):
+            v.append((f"table-modifies:{k}", f"[{route}] `{G.INSTS[k].text}`: documented to modify {sorted(sem.modifiable)}, the specifier can modify {sorted(gm)}"))
+    return v
+
+
+def check_argument_facts(ns):
+    """The catalogue's description of the arguments must be true of the prelude's objects."""
+    for name, has in (("r0", False), ("r1", True), ("m0", False), ("m1", True)):
+        if (ns[name].orientation is not None) != has:
+            raise HarnessError(f"prelude region {name}: preferred orientation expected {has}")
+    if "ob" in ns and ns["ob"].onSurface.orientation is None:
+        raise HarnessError("ob.onSurface has no preferred orientation")
+
+
+# ---------------------------------------------------------------------------------
+# one multiset: all permutations, both routes
+# ---------------------------------------------------------------------------------
+def text_of(clsname, perm):
+    return f"new {clsname} " + ", ".join(G.INSTS[k].text for k in perm)
+
+
+def run_multiset(ns, clsname, mode2D, ms, stats, text_obs=None):
+    """-> (list of (signature, message), model outcome).  One violation per signature."""
+    cls = ns[clsname]
+    ms = tuple(ms)
     sems, out = model_outcome(ns, clsname, mode2D, list(ms))
     perms = G.permutations(ms)
     results = []
     found = {}
 
-    def report(sig, msg, perm):
+    def report(sig, msg):
         if sig not in found:
-            found[sig] = (sig, msg, perm)
+            found[sig] = (sig, msg)
 
+    for sig, msg in class_info(ns, clsname, mode2D)[2]:
+        report(sig, msg)
     shadow_only = out.errors == {M.AMBIGUOUS} and out.shadowed_tie and not out.top_tie
     for perm in perms:
-        # model indices follow the written order: recompute for this order (the model
-        # itself is order independent; checked below)
+        # the model's indices follow the written order; the model itself must not care
         psems, pout = model_outcome(ns, clsname, mode2D, list(perm))
         if pout.errors != out.errors or (
             not out.errors
@@ -622,44 +696,58 @@ def run_multiset(ns, clsname, mode2D, ms, stats, text_obs=None):
             raise HarnessError(f"reference resolver is order dependent on {perm}")
         for route in ("api", "text"):
             if route == "api":
-                specs = build_specs(ns, perm)
+                try:
+                    specs = build_specs(ns, perm)
+                except Exception as e:
+                    raise HarnessError(f"cannot build {perm} in mode2D={mode2D}: {e!r}")
                 obs = observe(lambda: ns["new"](cls, specs))
             else:
-                if text_obs is None or (clsname, perm) not in text_obs:
+                if text_obs is None:
                     continue
-                obs = text_obs[(clsname, perm)]
+                obs = text_obs.get((clsname, perm))
+                if obs is None:
+                    raise HarnessError(f"text route lost the case {text_of(clsname, perm)}")
                 specs = obs.specs
+                if specs is None or len(specs) != len(perm):
+                    report("text:specifier-list", f"{text_of(clsname, perm)} (mode2D={mode2D}) compiled to {len(specs or [])} specifiers: {obs.exc}")
+                    continue
+                stats["text_resolutions"] += 1
             stats["resolutions"] += 1
-            if obs.status == "error" and obs.kind.startswith("other:"):
-                pass
+            if obs.status == "error":
+                stats["observed"][obs.kind] = stats["observed"].get(obs.kind, 0) + 1
+            for sig, msg in conformance(ns, clsname, mode2D, route, perm, specs, psems, stats):
+                report(sig, msg)
             for sig, msg in judge(ns, clsname, mode2D, list(perm), specs, obs, psems, pout, stats):
                 if shadow_only and sig.startswith(("missed-error", "error-kind")):
-                    continue  # reported once below as order dependence
-                report(sig, f"[{route}] new {clsname} " + ", ".join(G.INSTS[k].text for k in perm) + f"  (mode2D={mode2D}): " + msg, perm)
+                    continue  # reported once below, as order dependence
+                report(sig, f"[{route}] {text_of(clsname, perm)}  (mode2D={mode2D}): " + msg)
             results.append((perm, route, obs))
-    # order independence (differential)
-    p0, r0, o0 = results[0]
-    for perm, route, obs in results[1:]:
-        eq, why = outcomes_equal(o0, obs, mode2D)
-        if eq:
-            continue
-        if o0.status == obs.status == "error" and len(out.errors) > 1 and {o0.kind, obs.kind} <= out.errors:
-            stats["multi_error"] += 1  # several documented errors apply; any of them is right
-            continue
-        if shadow_only:
-            sig = "order-dependence:same-priority-tie"
-        elif o0.status != obs.status:
-            sig = "order-dependence:error-or-not"
-        elif o0.status == "error":
-            sig = "order-dependence:error-kind"
-        else:
-            sig = "order-dependence:values"
-        t0 = ", ".join(G.INSTS[k].text for k in p0)
-        t1 = ", ".join(G.INSTS[k].text for k in perm)
-        d0 = o0.exc if o0.status == "error" else "object created"
-        d1 = obs.exc if obs.status == "error" else "object created"
-        report(sig, f"new {clsname} {t0} [{r0}] -> {d0}\nnew {clsname} {t1} [{route}] -> {d1}\n(mode2D={mode2D}) {why}; the reference says: " + (f"error {sorted(out.errors)}: {out.detail}" if out.errors else "no error"), perm)
+    # oracle (2): order independence, differential
+    if results:
+        p0, r0, o0 = results[0]
+        for perm, route, obs in results[1:]:
+            eq, why = outcomes_equal(o0, obs, mode2D)
+            if eq:
+                continue
+            if o0.status == obs.status == "error" and len(out.errors) > 1 and kind_accepted(o0.kind, out.errors) and kind_accepted(obs.kind, out.errors):
+                stats["multi_error"] += 1  # several documented errors apply; any of them is right
+                continue
+            if shadow_only:
+                sig = "order-dependence:same-priority-tie"
+            elif o0.status != obs.status:
+                sig = "order-dependence:error-or-not"
+            elif o0.status == "error":
+                sig = "order-dependence:error-kind"
+            else:
+                sig = "order-dependence:values"
+            d0 = o0.exc if o0.status == "error" else "object created"
+            d1 = obs.exc if obs.status == "error" else "object created"
+            ref = f"error {sorted(out.errors)}: {out.detail}" if out.errors else "no error"
+            report(sig, f"{text_of(clsname, p0)} [{r0}] -> {d0}\n{text_of(clsname, perm)} [{route}] -> {d1}\n(mode2D={mode2D}) {why}; the reference says: {ref}")
     # counters
+    stats["multisets"] += 1
+    if len(perms) > 1:
+        stats["multisets_permuted"] += 1
     if out.errors:
         for k in out.errors:
             stats["kinds"][k] = stats["kinds"].get(k, 0) + 1
@@ -669,4 +757,221 @@ def run_multiset(ns, clsname, mode2D, ms, stats, text_obs=None):
             stats["priority_conflict"] += 1
         if out.modifier:
             stats["modifier"] += 1
+    if out.errors or out.priority_conflicts or out.modifier:
+        stats["nontrivial"] += 1
     return list(found.values()), out
+
+
+# ---------------------------------------------------------------------------------
+# work distribution
+# ---------------------------------------------------------------------------------
+def wants_text(cls, ms, index):
+    """Deterministic part of the enumeration that is *also* run as compiled Scenic text:
+    for the classes Object, Point and B every multiset of size <= 1 and a fixed stride (in
+    enumeration order) of the larger ones."""
+    if cls not in ("Object", "Point", "B"):
+        return False
+    if len(ms) <= 1:
+        return True
+    if len(ms) == 2:
+        return index % 6 == 0
+    return index % 24 == 0
+
+
+def run_chunk(item):
+    mode2D, cases = item  # cases: [(class, multiset, text?)]
+    stats = new_stats()
+    violations = []
+    text_cases = []
+    for cls, ms, text in cases:
+        if text:
+            for perm in G.permutations(tuple(ms)):
+                text_cases.append((cls, perm))
+
+    def job(ns):
+        check_argument_facts(ns)
+        tobs = {}
+        if text_cases:
+            if len(_TEXT["obs"]) != len(text_cases):
+                raise HarnessError(f"text route ran {len(_TEXT['obs'])} of {len(text_cases)} cases")
+            tobs = {case: _TEXT["obs"][i] for i, case in enumerate(text_cases)}
+        for cls, ms, text in cases:
+            sub = {k: o for k, o in tobs.items() if k[0] == cls and sorted(k[1]) == sorted(ms)} if text else None
+            found, out = run_multiset(ns, cls, mode2D, tuple(ms), stats, sub)
+            for sig, msg in found:
+                violations.append((sig, msg, {"cls": cls, "mode2D": mode2D, "ms": list(ms), "text": bool(text)}))
+
+    try:
+        in_veneer(mode2D, job, text_program(text_cases) if text_cases else "")
+    except TextRouteFailure as f:
+        cls, perm = text_cases[f.index]
+        case = {"cls": cls, "mode2D": mode2D, "ms": sorted(perm, key=G.ORDER.get), "text": True}
+        violations.append(("text:statement-fails", f"{text_of(cls, perm)} (mode2D={mode2D}) as Scenic text fails outside object creation: {f.exc!r}", case))
+        # the rest of the chunk through the API only
+        text_cases = []
+        cases = [(c, m, False) for c, m, _ in cases]
+        in_veneer(mode2D, job, "")
+    _TEXT["obs"] = {}
+    return stats, violations
+
+
+def new_stats():
+    return dict(
+        multisets=0,
+        multisets_permuted=0,
+        nontrivial=0,
+        resolutions=0,
+        text_resolutions=0,
+        props_judged=0,
+        indistinct=0,
+        winner_identified_by_value=0,
+        dep_edges=0,
+        default_values_judged=0,
+        table_tags=[],
+        ok=0,
+        multi_error=0,
+        projection_refused=0,
+        priority_conflict=0,
+        modifier=0,
+        kinds={},
+        observed={},
+    )
+
+
+def add_stats(total, s):
+    for k, v in s.items():
+        if isinstance(v, dict):
+            for kk, vv in v.items():
+                total[k][kk] = total[k].get(kk, 0) + vv
+        elif isinstance(v, list):
+            total[k].extend(v)
+        else:
+            total[k] += v
+
+
+def chunks(plan, size):
+    """Group the plan by mode into chunks of about `size` resolutions."""
+    out = []
+    for mode2D in (False, True):
+        cur, weight = [], 0
+        index = {}
+        for cls, m2, ms in plan:
+            if m2 != mode2D:
+                continue
+            gi = index.get((cls, len(ms)), 0)
+            index[(cls, len(ms))] = gi + 1
+            text = wants_text(cls, ms, gi)
+            n = len(G.permutations(ms)) if len(set(ms)) > 1 else 1
+            cur.append((cls, ms, text))
+            weight += n * (5 if text else 1)
+            if weight >= size:
+                out.append((mode2D, cur))
+                cur, weight = [], 0
+        if cur:
+            out.append((mode2D, cur))
+    return out
+
+
+def run(ctx):
+    _table()
+    plan = G.plan(ctx.tier)
+    items = ctx.rotate(chunks(plan, 700 if ctx.tier == "quick" else 4000))
+    # workers are forked: keep the collector from touching (and so copying) the parent's heap
+    import gc
+
+    gc.collect()
+    gc.freeze()
+    total = new_stats()
+    seen_sig = {}
+    samples = []
+    for stats, violations in ctx.pmap(run_chunk, items, chunksize=1):
+        add_stats(total, stats)
+        for sig, msg, case in violations:
+            n = seen_sig.get(sig, 0)
+            seen_sig[sig] = n + 1
+            if n < 3:
+                ctx.violation(sig, msg, case)
+    for cls, m2, ms in (plan[len(plan) // 3], plan[len(plan) // 2], plan[-1]):
+        samples.append({"mode2D": m2, "program": text_of(cls, ms), "orders": len(G.permutations(ms))})
+
+    # vacuity guards
+    need = {
+        "ok": total["ok"],
+        "priority_conflict": total["priority_conflict"],
+        "modifier": total["modifier"],
+        "winner_identified_by_value": total["winner_identified_by_value"],
+        "dep_edges": total["dep_edges"],
+        "default_values_judged": total["default_values_judged"],
+        "text_resolutions": total["text_resolutions"],
+        "multisets_permuted": total["multisets_permuted"],
+    }
+    for k in (M.AMBIGUOUS, M.FINAL, M.MISSING, M.CYCLIC, M.ON_VECTOR, M.MODIFIED_TWICE):
+        need["predicted:" + k] = total["kinds"].get(k, 0)
+    if not ctx.violations:
+        # implementation-side counters: only meaningful (and only demanded) when the
+        # implementation agreed with the reference everywhere
+        for k in (M.AMBIGUOUS, DUPLICATE, M.FINAL, M.MISSING, M.CYCLIC, M.ON_VECTOR):
+            need["observed:" + k] = total["observed"].get(k, 0)
+    else:
+        for k in ("winner_identified_by_value", "dep_edges", "default_values_judged", "text_resolutions"):
+            need.pop(k)
+    empty = [k for k, n in need.items() if n == 0]
+    if empty:
+        raise HarnessError(f"vacuous: nothing counted for {empty}")
+    n_rows = len({(i.desc.title) for i in G.INSTS.values()})
+    table_checks = set(total["table_tags"])  # (route, mode, instance, row)
+    api_instances = {t[2] for t in table_checks if t[0] == "api"}
+    text_instances = {t[2] for t in table_checks if t[0] == "text"}
+    if not ctx.violations and (api_instances != set(G.INSTS) or text_instances != set(G.INSTS)):
+        raise HarnessError(f"table conformance did not reach every instance through both routes: {sorted(set(G.INSTS) - (api_instances & text_instances))}")
+
+    ctx.cov.update(
+        evaluations=total["resolutions"],
+        states=total["multisets"],
+        transitions=total["resolutions"],
+        traces_validated_against_impl=total["resolutions"],
+        distinct_nontrivial=total["nontrivial"],
+        rule="every sub-multiset (size bound per class and tier, see bounds) of the built-in specifier instances of gen/c06_gen.py, "
+        "for each class of {Object, OrientedPoint, Point, user classes A B C P Q H F} and each mode (3D, 2D), and EVERY distinct permutation "
+        "of it; each permutation is resolved through veneer.new inside a live compilation and judged by models/specres.py; a fixed stride is "
+        "also compiled from Scenic text. states = (class, mode, multiset); transitions = resolutions observed; non-trivial = multiset "
+        "where two specifiers compete for a property at different priorities, or a modifying specifier modifies, or the reference predicts an error",
+        samples=samples,
+        multisets_with_several_orders=total["multisets_permuted"],
+        text_route_resolutions=total["text_resolutions"],
+        properties_judged=total["props_judged"],
+        winners_identified_by_value_against_a_rival=total["winner_identified_by_value"],
+        rival_values_indistinct=total["indistinct"],
+        dependency_edges_checked=total["dep_edges"],
+        user_default_values_judged=total["default_values_judged"],
+        table_instance_checks=len(table_checks),
+        documented_rows=n_rows,
+        specifier_instances=len(G.INSTS),
+        resolved_by_priority=total["priority_conflict"],
+        resolved_with_modifier=total["modifier"],
+        predicted_errors=dict(sorted(total["kinds"].items())),
+        observed_errors=dict(sorted(total["observed"].items())),
+        several_errors_apply=total["multi_error"],
+        violating_multisets_by_signature=dict(sorted(seen_sig.items())),
+        skipped_projection_unsupported=total["projection_refused"],
+        bounds={
+            "tier": ctx.tier,
+            "quick": "size<=2 over the quick instances for all classes (+ every instance alone), size 3 over the core instances for Object and B",
+            "thorough": "size<=2 over all enumerated instances for all classes, size 3 over all of them for Object and B (quick/core instances for the other classes), size 4 over position/orientation/with core for Object and B",
+        },
+    )
+    ctx.assumptions += [
+        "error kinds are told apart by exception class and message; 'Cannot use X specifier to modify itself' (same specifier twice) is accepted where the reference predicts a same-priority ambiguity or a double modification",
+        "when several documented errors apply to one multiset, any of them may be reported, in any order",
+        "internal properties (leading underscore, e.g. _observingEntity set by `visible`, documented as 'also adds a requirement') are not judged",
+        "additive/dynamic/final attributes of defaults are not described in the reference; additive = tuple of the values along the class chain (most derived first), dynamic = no effect on resolution, final = cannot be specified",
+        "2D mode: `with heading X` is read as `facing X` only for classes with an orientation (porting.rst says it unconditionally; a Point has no heading); polygonal regions refusing to project ('does not yet support projection') is an argument-level limitation and is counted, not judged",
+        "values are compared at compile time (random values structurally: same distribution over the same operands), nothing is sampled",
+    ]
+
+
+def replay(ctx, case):
+    _table()
+    stats, violations = run_chunk((case["mode2D"], [(case["cls"], tuple(case["ms"]), case.get("text", False))]))
+    for sig, msg, c in violations:
+        ctx.violation(sig, msg, c)
